@@ -597,6 +597,8 @@ def run_cases(exe, cases, env=None, timeout=300, wrapper=None, max_crashes=8):
         start = last + 1
         if rc in (124, -14, 142):      # timed out, or killed by the harness' own alarm(): a HANG (an abort is cheap)
             ncrash += 1
+            if rc == 124:
+                timeout = min(timeout, 60)   # the harness has no alarm of its own: do not pay the full timeout again
         if ncrash >= max_crashes and start < len(cases):
             # a tree on which the harness keeps hanging (each hang costs its alarm time): the dozen hangs found are
             # reported, the remaining cases are not run (empty output, no crash) so that the check ends in minutes
